@@ -94,9 +94,25 @@ def gen_transfers(rng, big=False, ns=None, dll='j1939-21', lats=None, sizefn=siz
             script.append(dict(t=t2, s=i, op='send', a=[dp, pf, ps, prio, sa, dict(seed=rng.getrandbits(30), len=n2)]))
             horizon = max(horizon, t2 + ((n2 + 6) // 7) * 60000 + 3_000_000)
     app_timers(rng, script, ns)
+    late_owner(rng, stacks, script, lat)
     script.sort(key=lambda e: e['t'])
     # (in a third of the scenarios the application uses its payload list again as soon as send_pgn has returned)
     return dict(stacks=stacks, lat=lat, jit=[rng.choice([1, 1000])], script=script, horizon=horizon + 1000, reuse_buffers=rng.random() < 0.33)
+
+
+
+def late_owner(rng, stacks, script, lat, t0=1000):
+    """in a fifth of the scenarios one address-bound listener is registered only when its stack is already running and has
+    already seen (and rightly ignored) a frame for that address from another node; everything submitted later must reach it"""
+    if rng.random() >= 0.25 or max(lat) > 500:
+        return              # (the early frame must have arrived before the listener is bound)
+    cands = [(j, s) for j, sd in enumerate(stacks) for s in sd['subs'] if s.get('filt') is not None]
+    if not cands or len(stacks) < 2:
+        return
+    j, sub = rng.choice(cands)
+    sub['late'] = t0 - 200
+    i = rng.choice([x for x in range(len(stacks)) if x != j])
+    script.append(dict(t=t0 - 900, s=i, op='send', a=[0, rng.choice([0x10, 0x77, 0xD5]), sub['filt'], 6, 0xFD, dict(seed=rng.getrandbits(16), len=3)]))
 
 
 def app_timers(rng, script, ns):
@@ -149,6 +165,7 @@ def gen_transfers22(rng, big=False, ntr=None, capacity=False):
         dur = nseg * 24000 + 4_500_000
         horizon = max(horizon, t + dur)
     app_timers(rng, script, ns)
+    late_owner(rng, stacks, script, lat)
     script.sort(key=lambda e: e['t'])
     # (in a third of the scenarios the application uses its payload list again as soon as send_pgn has returned)
     return dict(stacks=stacks, lat=lat, jit=[rng.choice([1, 1000])], script=script, horizon=horizon + 1000, reuse_buffers=rng.random() < 0.33)
